@@ -155,7 +155,7 @@ func runC08(c *Check) {
 		for _, fn := range r.Funcs {
 			for _, st := range FieldStores(fn, pair.f) {
 				nID++
-				c.Report(fn == r.AddHandler, P+".O2", "IDENTITY-WRITTEN-ONCE", fn, st.Pos(), "store to the handler's "+pair.what,
+				c.Report(HomeFn(fn) == r.AddHandler, P+".O2", "IDENTITY-WRITTEN-ONCE", fn, st.Pos(), "store to the handler's "+pair.what,
 					"a handler's "+pair.what+" is written only by AddHandler, from its parameters (the context and the wiring keep reporting the Pub/Sub the handler was configured with, also after decoration)")
 			}
 		}
@@ -445,10 +445,15 @@ func c08Context(c *Check, P string, r *RouterRoles2) {
 	if c.Use(P+".O3", decSub, "router function decorating the handler's subscriber") {
 		mt := CallsTo(decSub, msgPkg+".MessageTransformSubscriberDecorator")[0]
 		tf := FuncOfValue(firstOrigin(mt.Common().Args[0]))
+		msgIdx := 0
+		if bt := c.P.BoundMethodTarget(firstOrigin(mt.Common().Args[0])); bt != nil {
+			// a method value of the handler (`h.method`): the message is the method's first parameter after the receiver
+			tf, msgIdx = bt, 1
+		}
 		okT := false
-		if tf != nil {
+		if tf != nil && msgIdx < len(tf.Params) {
 			for _, cl := range Callers([]*ssa.Function{tf}, ctxFn) {
-				if el := VariadicElems(cl.Common().Args[len(cl.Common().Args)-1]); len(el) == 1 && FromParam(tf.Params[0])(el[0]) {
+				if el := VariadicElems(cl.Common().Args[len(cl.Common().Args)-1]); len(el) == 1 && FromParam(tf.Params[msgIdx])(el[0]) {
 					okT = true
 				}
 			}
